@@ -74,6 +74,8 @@ def run(tier, seed):
                  "Includes the C14 identity rules (CRC/length cover exactly the bytes handed out). Does not decide that decoders "
                  "produce the right bytes (C01-C04) nor the arithmetic of CRC-16 (C17).")
     with Context(tier) as ctx:
+        from .. import selfcheck
+        selfcheck.run(ctx, rep, ['facts'])
         mod = ctx.plain()
         rep.analysed = {"view": "plain", "functions": len(mod.defined()), "units": len(ctx.views.units)}
 
